@@ -234,6 +234,34 @@ theorem tps_roundtrip (tps : List RawTP) (bs : Bytes) (h : marshalTPs tps = .ok 
     parseTPs bs = some tps :=
   parse_marshal_fuel tps bs h bs.length (Nat.le_refl _)
 
+/-- the varint code is **prefix-free and injective**: two encodings followed by arbitrary
+continuations give the same byte string only for the same value and the same continuation — so a
+concatenation of varints has one reading. -/
+theorem varint_prefix_free (x y : Nat) (bx by' r r' : Bytes)
+    (hx : vAppend x = .ok bx) (hy : vAppend y = .ok by') (h : bx ++ r = by' ++ r') :
+    x = y ∧ r = r' := by
+  have h1 := varint_roundtrip x r bx hx
+  have h2 := varint_roundtrip y r' by' hy
+  rw [h, h2] at h1
+  injection h1 with h1
+  injection h1 with ha hb
+  exact ⟨ha.symm, hb.symm⟩
+
+theorem varint_injective (x y : Nat) (bs : Bytes)
+    (hx : vAppend x = .ok bs) (hy : vAppend y = .ok bs) : x = y :=
+  (varint_prefix_free x y bs bs [] [] hx hy rfl).1
+
+/-- `Marshal` is injective on the lists it accepts: two parameter lists with the same wire bytes
+are the same list (corollary of `tps_roundtrip`). -/
+theorem tps_marshal_injective (a c : List RawTP) (bs : Bytes)
+    (ha : marshalTPs a = .ok bs) (hc : marshalTPs c = .ok bs) : a = c := by
+  have h1 := tps_roundtrip a bs ha
+  have h2 := tps_roundtrip c bs hc
+  rw [h1] at h2
+  injection h2
+
+example : vAppend 300 = .ok [b 65, b 44] ∧ vAppend 44 = .ok [b 44] := by decide
+
 /-- `Marshal` panics only if some id does not fit 62 bits (a `len()` never reaches 2^62). -/
 theorem tps_marshal_total (tps : List RawTP)
     (hid : ∀ tp ∈ tps, tp.id < 4611686018427387904)
